@@ -130,6 +130,28 @@ func runC07() {
 		add("structured", "bytes="+spec, emit.Pick(r, sizes))
 	}
 
+	// 3b. numbers around the overflow boundary of the accumulation num*10+digit:
+	// prefixes MaxInt64/10 - 1 .. + 1, every last digit, optionally one or two more digits
+	{
+		base := []string{"922337203685477579", "922337203685477580", "922337203685477581", "1844674407370955161", "184467440737095516"}
+		var nums []string
+		for _, b := range base {
+			for d := 0; d <= 9; d++ {
+				n1 := b + strconv.Itoa(d)
+				nums = append(nums, n1)
+				for e := 0; e <= 9; e++ {
+					nums = append(nums, n1+strconv.Itoa(e))
+				}
+				nums = append(nums, n1+"05", n1+"85")
+			}
+		}
+		for _, n := range nums {
+			add("overflow-boundary", "bytes=0-"+n, emit.Pick(r, []int64{10, 1000}))
+			add("overflow-boundary", "bytes=-"+n, emit.Pick(r, []int64{10, 1000}))
+			add("overflow-boundary", "bytes="+n+"-", emit.Pick(r, []int64{10, 1000, math.MaxInt64}))
+		}
+	}
+
 	// 4. random bytes after a (mostly) valid prefix
 	m := 300
 	if thorough() {
